@@ -3,4 +3,15 @@ EXTENDS RainCoreReopen
 \* pin ids are names (as in MC_RainCore): not part of the fingerprint
 RView == <<seq, hist, mem, imm, immOn, immDone, files, cur, snaps, pending, comp, disk, nextFile,
            curWal, logWal, gcDue, immWal, man, walEnts, isopen, reopens>>
+\* ---- refinement: also across close and reopen the LSM machine implements the key-value service
+\* (RainKV.tla): Close is a stuttering step (the volatile state is simply not used while closed),
+\* Open must give back exactly the same map (RainKV!Restart: only snapshots and views end)
+RKVStore(s) == [k \in Keys |-> Get(k, s)]
+RKV == INSTANCE RainKV WITH
+        KVKeys <- 1..NK,
+        store  <- RKVStore(seq),
+        count  <- seq,
+        frozen <- [i \in 1..Len(snaps) |-> RKVStore(snaps[i])],
+        views  <- {[id |-> p.id, map |-> [k \in Keys |-> PinGet(p, k)]] : p \in pins}
+RImplementsKV == RKV!KVSpec
 =============================================================================
